@@ -38,6 +38,7 @@ type spec struct {
 	Sig      string // "(a int) string"
 	Body     string // fingerprint text placed in the body; "" = bodyless
 	Uses     []string // import names used by the body
+	SigUses  []string // import names used by the signature only
 	Directive string // "", keep-original, purge, override-signature
 	DirStyle  int    // 0: // comment, 1: /* */ comment
 	Linkname  string // non-empty: bodyless function carrying a //go:linkname line
@@ -257,6 +258,9 @@ func fixImports(f *file) {
 			for _, u := range s.Uses {
 				used[u] = true
 			}
+			for _, u := range s.SigUses {
+				used[u] = true
+			}
 		}
 	}
 	var keep []importSpec
@@ -359,6 +363,19 @@ func genPair(rt *rapid.T) pair {
 					s.Sig = "(x X) string"
 				}
 				s.Uses = pickUses(&f, "f")
+				// a signature that refers to an imported type (possibly the only use of that import)
+				if s.TParams == "" && rapid.IntRange(0, 3).Draw(rt, "sigimport") == 0 {
+					for _, im := range f.Imports {
+						switch im.local() {
+						case "strings":
+							s.Sig, s.SigUses = "(b *strings.Builder) string", []string{"strings"}
+						case "str":
+							s.Sig, s.SigUses = "(e *str.NumError) string", []string{"str"}
+						case "sync":
+							s.Sig, s.SigUses = "(pm *sync.Mutex) string", []string{"sync"}
+						}
+					}
+				}
 				sym.fspec[s.Name] = s
 				sym.funcs = append(sym.funcs, s.Name)
 				f.Decls = append(f.Decls, decl{Kind: kFunc, Specs: []spec{s}})
@@ -450,7 +467,17 @@ func genPair(rt *rapid.T) pair {
 					sym.values = append(sym.values, nm)
 				}
 				f.Decls = append(f.Decls, d)
-			case 6: // init
+			case 6: // init, or a blank declaration (which nothing can override)
+				switch rapid.IntRange(0, 3).Draw(rt, "blankkind") {
+				case 0:
+					s := spec{Name: "_", Sig: "()", Body: nextFP("o")}
+					s.Uses = pickUses(&f, "bf")
+					f.Decls = append(f.Decls, decl{Kind: kInit, Specs: []spec{s}})
+					continue
+				case 1:
+					f.Decls = append(f.Decls, decl{Kind: kVar, Specs: []spec{{Names: []valueName{{"_", "\"" + nextFP("o") + "\""}}}}})
+					continue
+				}
 				s := spec{Name: "init", Sig: "()", Body: nextFP("o")}
 				s.Uses = pickUses(&f, "i")
 				f.Decls = append(f.Decls, decl{Kind: kInit, Specs: []spec{s}})
@@ -612,7 +639,15 @@ func genPair(rt *rapid.T) pair {
 					d.Directive = "purge"
 				}
 				f.Decls = append(f.Decls, d)
-			default: // init in the overlay
+			default: // init in the overlay, or blank declarations
+				switch rapid.IntRange(0, 3).Draw(rt, "oblank") {
+				case 0:
+					f.Decls = append(f.Decls, decl{Kind: kInit, Specs: []spec{{Name: "_", Sig: "()", Body: nextFP("v")}}})
+					continue
+				case 1:
+					f.Decls = append(f.Decls, decl{Kind: kType, Specs: []spec{{Name: "_", TypeDef: "struct{ Z int }"}}})
+					continue
+				}
 				s := spec{Name: "init", Sig: "()", Body: nextFP("v")}
 				s.Uses = pickUses(&f, "oi")
 				f.Decls = append(f.Decls, decl{Kind: kInit, Specs: []spec{s}})
